@@ -152,8 +152,7 @@ theorem every_reply_handled_on_register (s : St) (t : TowerId) (h : Inv s.client
 theorem classify_total (b : Beh) :
     classify b = .accepted ∨ classify b = .connErr ∨ classify b = .unparsable ∨
     classify b = .subErr ∨ classify b = .rejected ∨ classify b = .wrongSigner := by
-  unfold classify
-  cases b.down <;> cases b.add <;> simp
+  cases h : classify b <;> simp
 
 /-- non-vacuity: a tower signs with another key on the first notification; it is flagged, the
 second notification does not reach it, a reload keeps it flagged -/
